@@ -90,16 +90,24 @@ def get_minimal_hops_to_goal(topology, sensitive_addresses):
         if subnet not in subnets_to_visit:
             subnets_to_visit.append(subnet)
 
-    # find minimum shortest path that visits internet subnet and all
-    # sensitive subnets by checking all possible permutations
-    shortest = max_value
-    for pm in permutations(subnets_to_visit):
-        pm_sum = 0
-        for i in range(len(pm) - 1):
-            pm_sum += distance[pm[i]][pm[i+1]]
-        shortest = min(shortest, pm_sum)
-
-    return shortest
+    # find size of the smallest tree that connects the internet subnet and all
+    # sensitive subnets (a subnet shared by the routes to different sensitive
+    # subnets only has to be hopped through once), using the Dreyfus-Wagner
+    # dynamic program over subsets of the subnets to visit
+    dist = distance.astype(np.int64)
+    num_visit = len(subnets_to_visit)
+    tree = np.full((1 << num_visit, num_subnets), max_value, dtype=np.int64)
+    for i, subnet in enumerate(subnets_to_visit):
+        tree[1 << i] = dist[subnet]
+    for visit_set in range(1, 1 << num_visit):
+        part = (visit_set - 1) & visit_set
+        while part > 0:
+            tree[visit_set] = np.minimum(
+                tree[visit_set], tree[part] + tree[visit_set ^ part]
+            )
+            part = (part - 1) & visit_set
+        tree[visit_set] = (tree[visit_set][:, None] + dist).min(axis=0)
+    return int(min(tree[-1].min(), max_value))
 
 
 def min_subnet_depth(topology):
